@@ -21,7 +21,7 @@ RULE = ("models x N in 2..4 x every missing-data mask of the n_y x N panel x dev
         "(model, N, mask, deviation, data) with at least one observed cell")
 MANIFEST_ENTRY = dict(level="exploration", design="DESIGN.md section 4 / C08",
     technique="bounded-exhaustive enumeration of all missing-data masks on generated state-space models; data reproduction, residual substitution into the harness's own equations, re-simulation and level/deviation differential oracles",
-    text="For the 11 (quick) / 16 (thorough) solved models of C03 (incl. log observables, lagged state in the measurement equation, no-measurement-shock and forward-looking models), every N in 2..4 and EVERY missing-data mask: smoothed and updated medians equal the data in every observed cell; every measurement equation holds in every observed cell with smoothed states and smoothed measurement shocks; every transition equation of a backward-looking model holds exactly with the smoothed shocks; simulating the model (real first-order simulator) from the smoothed initial condition with the smoothed shocks reproduces the smoothed variables; the filter in deviation mode on data minus (over, for log-variables) the harness's own steady state equals level-mode results minus steady state.",
+    text="For the 12 (quick) / 17 (thorough) solved models of C03 and 3 unit-root trend-cycle models under the default diffuse initialisation (incl. log observables, lagged state in the measurement equation, no-measurement-shock and forward-looking models), every N in 2..4 and EVERY missing-data mask: smoothed and updated medians equal the data in every observed cell; every measurement equation holds in every observed cell with smoothed states and smoothed measurement shocks; every transition equation of a backward-looking model holds exactly with the smoothed shocks; simulating the model (real first-order simulator) from the smoothed initial condition with the smoothed shocks reproduces the smoothed variables; the filter in deviation mode on data minus (over, for log-variables) the harness's own steady state equals level-mode results minus steady state (stationary models).",
     note="Trusted: ref/linre.py equations and steady state; first-order simulator (C01). prepend_initial is not used (it crashes on this code base - adjacent defect outside the statement), so equations needing pre-sample smoothed states are checked from the first period where all lags are inside the span.")
 ASSUMPTIONS = ["the first-order simulator is correct (C01)"]
 
@@ -40,6 +40,9 @@ def check_config(spec, m, N, dev, res, ctx, only_mask=None):
     is_log = spec.log
     L = spec.max_lag()
     ss_vec = spec.steady()
+    unit_root = ss_vec is None          # the steady level is not pinned down: data are generated around zero
+    if unit_root:
+        ss_vec = np.zeros(spec.n)
     ss = {spec.var(j): ss_vec[j] for j in range(spec.n)}
     for k, e in enumerate(spec.meas):
         ss[spec.obs(k)] = sum(c * ss_vec[j] for (j, s, c) in e["terms"]) + e.get("const", 0.0)
@@ -140,7 +143,7 @@ def check_config(spec, m, N, dev, res, ctx, only_mask=None):
             except Exception as e:
                 bad("exception", "re-simulation: %s: %s" % (type(e).__name__, str(e)[:300]), error=type(e).__name__)
         # (f) deviation mode on data minus steady state == level results minus steady state
-        if not dev:
+        if not dev and not unit_root:
             res.ev()
             try:
                 fd = c03.Filtered(spec, m, to_impl(ydev), mask, N, True, False, None)
@@ -160,6 +163,23 @@ def check_config(spec, m, N, dev, res, ctx, only_mask=None):
     res.sample({"model": name, "N": N, "deviation": dev, "masks": 2 ** (ny * N) - 1})
 
 
+def unit_root_models():
+    """trend + cycle models under the default diffuse_method="fixed_unknown" (no constant: flat steady state)"""
+    S = linre.LinSpec
+    rw = dict(terms=[(0, -1, 1.0)], const=0.0, shock=True)
+    cyc = dict(terms=[(1, -1, 0.6)], const=0.0, shock=True)
+    cyc2 = dict(terms=[(1, -1, 0.5), (1, -2, 0.2), (0, 0, 0.1), (0, -1, -0.1)], const=0.0, shock=True)
+    return [
+        S(2, [rw, cyc], [dict(terms=[(0, 0, 1.0), (1, 0, 1.0)], const=0.0, shock=True)], False, "ur_trend_cycle_one"),
+        S(2, [rw, cyc2], [dict(terms=[(0, 0, 1.0), (1, 0, 1.0)], const=0.0, shock=True), dict(terms=[(1, 0, 1.0), (1, -1, 0.5)], const=0.0, shock=False)], False, "ur_trend_cycle_two"),
+        S(1, [rw], [dict(terms=[(0, 0, 1.0)], const=0.0, shock=True)], False, "ur_local_level"),
+    ]
+
+
+def all_models(tier):
+    return c03.models(tier) + unit_root_models()
+
+
 def shard(item, res, ctx):
     spec = linre.LinSpec.from_json(item["spec"])
     m = c03.build(spec)
@@ -169,7 +189,7 @@ def shard(item, res, ctx):
 
 def run(ctx, total, info):
     shards = []
-    for spec in c03.models(ctx.tier):
+    for spec in all_models(ctx.tier):
         ny = len(spec.meas)
         maxN = 4
         for N in range(2, maxN + 1):
